@@ -26,6 +26,20 @@ content after any rewrite.  The oracle never uses the forwarding arithmetic of f
     D5  a statement cursor aims at the listed sites at or beneath it (and `within` lists them).
   chains: cursors taken on f0, 1-3 passes (aimable, edit-reporting, opaque), Function.forward judged
         by composing the per-step provenances; an earlier cursor used as `where` hits the descendant.
+  structure (after EVERY application): the result AST is a TREE -- no node object at two program points
+        (a function symbol / type annotation is no program point) -- and shares no statement / compound
+        expression with the program it was given (`close` documents that it does).
+  multiplicity: user rules whose right-hand side uses a pattern variable 0, 1, 2, 3 times (statement and
+        expression rules), then a second pass aimed at each copy separately by index and by cursor: by
+        POSITION exactly that copy changes.  Rules over every statement / expression form the matcher
+        and the applier know (if / for / while / with / indexed assignment / assert / return /
+        comprehension / literal / call / ternary / conditional / list reference), `repeat=2`.
+  contract: what is not a name is rejected by kind (expression cursor to a statement-sited pass, cursors
+        of another program, `within` of an expression, find / find_all(within), regions and their members,
+        wrong types).
+  measurement: c19.py runs the quick tier under coverage.py (branch=True) over fpy2/rewrite, transform/
+        {cursor,path,utils}.py and fpy2/strategies and reports in rep.cov['code_coverage'] the functions
+        and branches never executed.
 """
 from __future__ import annotations
 import importlib, os, re, sys, time, traceback
@@ -127,8 +141,188 @@ def one_r1(a, c):
     y = a + (-c)
 
 @fp.pattern
+def one_a0(a, c):
+    y = -c
+
+@fp.pattern
+def one_a2(a, c):
+    y = (a + a) - c
+
+@fp.pattern
+def one_a3(a, c):
+    y = ((a + a) + a) - c
+
+@fp.pattern
+def one_c2(a, c):
+    y = (a - c) - c
+
+@fp.pattern
+def r_if(a, c):
+    if a > c:
+        y = a - c
+    else:
+        y = c - a
+
+@fp.pattern
+def r_for(a, c):
+    for y in [a, a]:
+        y = y - c
+
+@fp.pattern
+def r_comp(a, c):
+    y = [y - c for y in [a, a]]
+
+@fp.pattern
+def r_assert(a, c):
+    assert a > c
+    y = a - c
+
+@fp.pattern
+def r_while(a, c):
+    y = a - c
+    while y > c:
+        y = y - c
+
+@fp.pattern
+def lit_l(a):
+    y = a * 2
+
+@fp.pattern
+def lit_r(a):
+    y = a + a
+
+@fp.pattern
+def if_l(a, c, d):
+    if a > c:
+        y = a - d
+    else:
+        y = d - a
+
+@fp.pattern
+def if_r(a, c, d):
+    y = a - d
+
+@fp.pattern
+def while_l(y, c, d):
+    while y < c:
+        y = y + d
+
+@fp.pattern
+def while_r(y, c, d):
+    if y < c:
+        y = y + d
+        while y < c:
+            y = y + d
+
+@fp.pattern
+def assert_l(a, c):
+    assert a > c
+
+@fp.pattern
+def assert_r(a, c):
+    assert c < a
+
+@fp.pattern
+def ret_l(a, c):
+    return a + c
+
+@fp.pattern
+def ret_r(a, c):
+    return c + a
+
+@fp.pattern
+def neg_l(a):
+    -a
+
+@fp.pattern
+def neg_r(a):
+    0 - a
+
+@fp.pattern
+def comp_l(a, c):
+    [e - c for e in a]
+
+@fp.pattern
+def comp_r(a, c):
+    [e + (-c) for e in a]
+
+@fp.pattern
+def for_l(a, c, d):
+    for i in [a, c]:
+        y = i - d
+
+@fp.pattern
+def for_r(a, c, d):
+    y = a - d
+    y = c - d
+
+@fp.pattern
+def ctx_l(a, c):
+    with fp.REAL:
+        y = a - c
+
+@fp.pattern
+def ctx_r(a, c):
+    with fp.REAL:
+        with fp.REAL:
+            y = a - c
+
+@fp.pattern
+def idx_l(v, a, c, d):
+    v[a] = c - d
+
+@fp.pattern
+def idx_r(v, a, c, d):
+    v[a] = c
+    v[a] = v[a] - d
+
+@fp.pattern
+def fma_l(a, b, c):
+    fp.fma(a, b, c)
+
+@fp.pattern
+def fma_r(a, b, c):
+    a * b + c
+
+@fp.pattern
+def call_l(a):
+    h1(a)
+
+@fp.pattern
+def call_r(a):
+    a * a
+
+@fp.pattern
+def ife_l(a, b, c, d):
+    (a if b > c else d)
+
+@fp.pattern
+def ife_r(a, b, c, d):
+    (d if b <= c else a)
+
+@fp.pattern
+def ref_l(a, b, c):
+    [a, b][c]
+
+@fp.pattern
+def ref_r(a, b, c):
+    [b, a][c]
+
+@fp.pattern
 def e_l(a, c):
     a - c
+
+@fp.pattern
+def e_a0(a, c):
+    -c
+
+@fp.pattern
+def e_a2(a, c):
+    (a + a) + (-c)
+
+@fp.pattern
+def e_a3(a, c):
+    ((a + a) + a) + (-c)
 
 @fp.pattern
 def e_r(a, c):
@@ -163,7 +357,8 @@ class Gen:
         if k < 0.5: return f'({self.call(arg)} if acc > {self.call("x")} else {self.call("x")})'
         if k < 0.55: return f'[{self.call(arg)}, x][{self.call("x")} * 0]'
         if k < 0.6: return f'({self.call(arg)} + {self.call(arg)})'
-        if k < 0.8: return f'({arg or "acc"} - {self.t()})'
+        if k < 0.7: return f'({arg or "acc"} - {self.t()})'
+        if k < 0.8: return f'({self.call(arg)} - {self.t()})'
         return f'({arg or "x"} + {self.t()})'
 
     def general(self, name):
@@ -172,7 +367,7 @@ class Gen:
              f'    acc = x + {self.t()}', '    ys = [x, x, acc]']
         budget = [R.randint(6, 16)]
         def pair(pad, n=2):
-            a = R.choice(['acc', 'x'])
+            a = R.choice(['acc', 'x', self.call('x'), f'(x - {self.t()})'])
             for k in range(n):
                 L.append(f'{pad}{"uwv"[k]}{self.t()} = {a if k % 2 == 0 else "x"} - {self.t()}')
         def block(ind, depth):
@@ -235,8 +430,27 @@ class Gen:
                          L.append(f'    acc = acc + {self.t()}'))]
         R.shuffle(must)
         for m in must[:R.choice([2, 3, 3])]: m()
+        baits = [lambda: L.append(f'    d{self.t()} = ({R.choice(["x", self.call("x")])} - {self.t()}) * 2'),
+                 lambda: self.bait_if(L),
+                 lambda: (L.append(f'    while acc < {self.t()}:'), L.append(f'        acc = acc + {self.t()}')),
+                 lambda: L.append(f'    acc = acc - (-({R.choice(["x", self.call("x")])} + {self.t()}))'),
+                 lambda: L.append(f'    m{self.t()} = [e - {self.t()} for e in [{self.call("x")}, x]]'),
+                 lambda: (L.append(f'    for j0 in [x + {self.t()}, acc]:'), L.append(f'        g{self.t()} = j0 - {self.t()}')),
+                 lambda: (L.append(f'    with fp.REAL:'), L.append(f'        k{self.t()} = x - {self.t()}')),
+                 lambda: L.append(f'    ys[x - {self.t()}] = acc - {self.t()}'),
+                 lambda: L.append(f'    acc = fp.fma(acc, {self.call("x")}, {self.t()})'),
+                 lambda: L.append(f'    assert acc > {R.choice([str(self.t()), self.call("x")])}'),
+                 lambda: L.append(f'    s{self.t()} = ys[{self.call("x")} * 0:2]'),
+                 lambda: L.append(f'    acc = acc + h1(x + {self.t()}) + h1({self.call("x")})')]
+        R.shuffle(baits)
+        for m in baits[:R.choice([4, 5, 6])]: m()
         L.append(f'    return acc + {self.expr()}')
         return '\n'.join(L) + '\n'
+
+    def bait_if(self, L):
+        v, d = f'v{self.t()}', self.t()
+        L.append(f'    if acc > {self.t()}:'); L.append(f'        {v} = acc - {d}')
+        L.append('    else:'); L.append(f'        {v} = {d} - acc')
 
     def mono(self, name):
         """exact operations on FP32 arguments under REAL: sites of insert_round(FP64) once monomorphized"""
@@ -366,6 +580,58 @@ def all_exprs(func):
                 elif isinstance(c, A.StmtBlock): yield from blk(c)
     yield from blk(func.body)
 
+def all_nodes(func):
+    """every Ast node reachable from a FuncDef's body, with a readable path"""
+    stack = [(func.body, 'body')]
+    while stack:
+        n, where = stack.pop()
+        yield n, where
+        for cls in type(n).__mro__:
+            for sl in getattr(cls, '__slots__', ()):
+                if sl in ('_loc', 'fn', 'func', 'type'): continue   # a function symbol / annotation is no program point
+                v = getattr(n, sl, None)
+                if isinstance(v, A.Ast): stack.append((v, f'{where}.{sl}'))
+                elif isinstance(v, (list, tuple)):
+                    for i, x in enumerate(v):
+                        if isinstance(x, A.Ast): stack.append((x, f'{where}.{sl}[{i}]'))
+                        elif isinstance(x, (list, tuple)):
+                            for y in x:
+                                if isinstance(y, A.Ast): stack.append((y, f'{where}.{sl}[{i}]'))
+
+def tree_check(rep, name, f, g, replay):
+    """the result of a pass is a TREE: no node object sits at two program points; and (counted, then judged by
+    kind) which nodes it shares with the program it was given"""
+    seen = {}
+    dup = []
+    for n, where in all_nodes(g.ast):
+        if id(n) in seen and seen[id(n)][0] is n:
+            dup.append((type(n).__name__, seen[id(n)][1], where))
+        else:
+            seen[id(n)] = (n, where)
+    rep.count('e2e:tree-checked')
+    if dup:
+        rep.violation(f'{name}: the result is not a tree: one {dup[0][0]} node `{_fmt(seen, dup[0])}` sits at {dup[0][1]} and at {dup[0][2]}'
+                      f' ({len(dup)} shared nodes); aiming by cursor compares nodes by identity', dict(replay, shared=[list(d) for d in dup[:6]]))
+    if f.ast is not g.ast:
+        big = []
+        for n, where in all_nodes(f.ast):
+            if id(n) in seen and seen[id(n)][0] is n:
+                leaf = isinstance(n, (A.Var, A.ValueExpr, A.Attribute)) or not any(True for _ in _children(n))
+                rep.count(f'e2e:tree:shared-with-input:{name.split("(")[0]}:{"leaf" if leaf else type(n).__name__}')
+                if not leaf: big.append((type(n).__name__, where))
+        # `close` documents that it prepends to the very statements it was given
+        if big and not name.startswith('close'):
+            rep.violation(f'{name}: the result shares the {big[0][0]} at {big[0][1]} (and {len(big) - 1} more nodes) with the program it was given',
+                          dict(replay, shared=[list(b) for b in big[:6]]))
+    return dup
+
+def _fmt(seen, d):
+    for n, w in seen.values():
+        if w == d[1]:
+            try: return n.format()
+            except Exception: return type(n).__name__   # noqa
+    return d[0]
+
 def body_text(func):
     return '\n'.join(s.format() for s in func.body.stmts)
 
@@ -382,6 +648,7 @@ def analyse_step(rep, name, f, g, replay):
     stp = Step(); stp.f, stp.g, stp.ok = f, g, False
     S, T = h.shape(f.ast.body), h.shape(g.ast.body)
     stp.S, stp.T = S, T
+    tree_check(rep, name, f, g, replay)
     log = g.edits
     edits = h.real_edits(log)
     stp.edits = edits
@@ -601,6 +868,24 @@ def strategies(mod):
     out.append(_rewrite('one1->2', mod.one_l, mod.one_r2, 'stmt'))
     out.append(_rewrite('one1->1', mod.one_l, mod.one_r1, 'stmt'))
     out.append(_rewrite('sub->addneg', mod.e_l, mod.e_r, 'expr'))
+    for nm, rhs in [('stmt:a*0', mod.one_a0), ('stmt:a*2', mod.one_a2), ('stmt:a*3', mod.one_a3), ('stmt:c*2', mod.one_c2)]:
+        r = _rewrite(nm, mod.one_l, rhs, 'stmt'); r.family = 'dup'; out.append(r)
+    for nm, rhs in [('expr:a*0', mod.e_a0), ('expr:a*2', mod.e_a2), ('expr:a*3', mod.e_a3)]:
+        r = _rewrite(nm, mod.e_l, rhs, 'expr'); r.family = 'dup'; out.append(r)
+    # rules over every statement / expression form the matcher and the applier know (family 'cov')
+    for nm, l, r_, kind in [('1->if', mod.one_l, mod.r_if, 'stmt'), ('1->for', mod.one_l, mod.r_for, 'stmt'),
+                            ('1->comp', mod.one_l, mod.r_comp, 'stmt'), ('1->assert', mod.one_l, mod.r_assert, 'stmt'), ('1->while', mod.one_l, mod.r_while, 'stmt'),
+                            ('lit*2', mod.lit_l, mod.lit_r, 'stmt'), ('if->1', mod.if_l, mod.if_r, 'stmt'), ('for->2', mod.for_l, mod.for_r, 'stmt'),
+                            ('with->with2', mod.ctx_l, mod.ctx_r, 'stmt'), ('idx->2', mod.idx_l, mod.idx_r, 'stmt'),
+                            ('while->if', mod.while_l, mod.while_r, 'stmt'), ('assert', mod.assert_l, mod.assert_r, 'stmt'),
+                            ('return', mod.ret_l, mod.ret_r, 'stmt'), ('neg', mod.neg_l, mod.neg_r, 'expr'), ('comp', mod.comp_l, mod.comp_r, 'expr'),
+                            ('fma->muladd', mod.fma_l, mod.fma_r, 'expr'), ('h1->sq', mod.call_l, mod.call_r, 'expr'),
+                            ('ifexpr', mod.ife_l, mod.ife_r, 'expr'), ('listref', mod.ref_l, mod.ref_r, 'expr')]:
+        r = _rewrite(nm, l, r_, kind); r.family = 'cov'; out.append(r)
+    for nm, l, r_, kind in [('pair2->3,repeat=2', mod.pair_l, mod.pair_r3, 'stmt'), ('sub->addneg,repeat=2', mod.e_l, mod.e_a2, 'expr')]:
+        rw = Rewrite(l, r_, name=nm)
+        out.append(Strat(f'Rewrite({nm})', (lambda rw: lambda f, w: rw.apply(f, w, repeat=2))(rw), (lambda l: lambda f: find_all(l, f))(l), None, kind,
+                         recog='gone' if kind == 'expr' else None, family='cov'))
     # passes that take no `where` but report (or refuse to report) what they did
     out.append(Strat('lift_context', lambda f, w: st.lift_context(f), kind='plain'))
     out.append(Strat('close', lambda f, w: st.close(f), kind='plain'))
@@ -637,6 +922,18 @@ def my_expr_order(func):
 # ---------------------------------------------------------------------------
 # the aiming oracle
 
+def resolve_key(stmt, key):
+    """the expression at a root-first chain of (field, index) under a statement node, or None"""
+    cur = stmt
+    try:
+        for field, index in key:
+            v = getattr(cur, field)
+            if field == 'kwargs': v = [x for _, x in v]
+            cur = v if index is None else v[index]
+        return cur if isinstance(cur, A.Expr) else None
+    except (AttributeError, IndexError, TypeError):
+        return None
+
 def wrapped_sigs(func):
     """signatures of operations that are alone in a one-statement `with` block (what insert_round emits),
     the literals of operands hoisted into `_t = ...` temporaries right before the block counted in"""
@@ -658,7 +955,7 @@ def wrapped_sigs(func):
 def all_sigs(func):
     return Counter(sig(e) for e, _ in all_exprs(func))
 
-def aim_oracle(rep, R, S_, f, src, evals, full=True, expr_curs=()):
+def aim_oracle(rep, R, S_, f, src, evals, full=True, expr_curs=(), d5=True):
     h = H()
     name = S_.name
     replay = {'program': src, 'strategy': name}
@@ -668,7 +965,11 @@ def aim_oracle(rep, R, S_, f, src, evals, full=True, expr_curs=()):
         ss = S_.sites(f)
         rr = S_.refusals(f) if S_.refusals else []
     except Exception as e:   # noqa
-        rep.count(f'e2e:{name}:listing-failed:{type(e).__name__}'); return
+        rep.count(f'e2e:{name}:listing-failed:{type(e).__name__}')
+        if isinstance(e, TransformError):
+            rep.violation(f'{name}: listing the sites of a valid program failed: {type(e).__name__}: {e}', replay)
+        else: note_crash(rep, name + ' (listing)', src, e)
+        return
     k = len(ss)
     evals[0] += 1
     rep.count(f'e2e:{name}:k={min(k, 4)}{"+" if k > 4 else ""}')
@@ -787,13 +1088,27 @@ def aim_oracle(rep, R, S_, f, src, evals, full=True, expr_curs=()):
             # recognise the transformed site by content
             now = all_sigs(g.ast)
             if S_.recog == 'gone':
-                if now[site_sigs[j]] != base_sigs[site_sigs[j]] - 1:
-                    rep.violation(f'{name}: where={j} must transform the {j}-th listed site `{ss[j].resolve().format()}`, which is still there', rp2)
+                # by POSITION (copies of one expression have equal content): the expression at the path of listed
+                # site i in the image of its statement is unchanged for i != j and changed for i = j
+                keys_ = [expr_path_key(c) for c in ss]
+                site_txt = [c.resolve().format() for c in ss]
+                def changed(i):
+                    sp = (regs[i][0], regs[i][1])
+                    v = stp.prov.get(sp)
+                    if v is None or v[0] != 'kept': return None
+                    e2 = resolve_key(h.node_at(stp.T, v[1])[1], keys_[i])
+                    return e2 is None or sig(e2) != site_sigs[i] or e2.format() != site_txt[i]
+                cj = changed(j)
+                if cj is False:
+                    rep.violation(f'{name}: where={j} must transform the {j}-th listed site `{ss[j].resolve().format()}` ({str(ss[j]).split(" at")[0]}), which is still there', rp2)
                 for i in range(k):
-                    if i == j or site_sigs[i] == site_sigs[j]: continue
-                    encl = regs[i] == regs[j] and expr_path_key(ss[j])[:len(expr_path_key(ss[i]))] == expr_path_key(ss[i])
-                    if not encl and now[site_sigs[i]] < base_sigs[site_sigs[i]]:
-                        rep.violation(f'{name}: where={j} (listed as `{ss[j].resolve().format()}`) transformed listed site {i} `{ss[i].resolve().format()}`', rp2)
+                    if i == j: continue
+                    related = regs[i] == regs[j] and (keys_[j][:len(keys_[i])] == keys_[i] or keys_[i][:len(keys_[j])] == keys_[j])
+                    if not related and changed(i):
+                        rep.violation(f'{name}: where={j} (listed as `{ss[j].resolve().format()}` at {str(ss[j]).split(" at")[0]}) also transformed listed site {i} '
+                                      f'`{ss[i].resolve().format()}` at {str(ss[i]).split(" at")[0]}: exactly one site must change', rp2)
+                if name == 'inline' and len(set(site_sigs)) == k and now[site_sigs[j]] != base_sigs[site_sigs[j]] - 1:
+                    rep.violation(f'{name}: where={j} must transform the {j}-th listed site `{ss[j].resolve().format()}`, which is still there', rp2)
             elif S_.recog == 'wrapped':
                 w0, w1 = wrapped_sigs(f.ast), wrapped_sigs(g.ast)
                 new = w1 - w0
@@ -814,6 +1129,7 @@ def aim_oracle(rep, R, S_, f, src, evals, full=True, expr_curs=()):
                     rep.violation(f'{name}: where=<cursor of site {j}> reported {g2.edits.edits}', rp2)
         except Exception as e:   # noqa
             rep.violation(f'{name}: where=<cursor of site {j}> failed: {type(e).__name__}: {e}', rp2)
+    if not d5: return
     # D5: a statement cursor aims at the sites at or beneath it; `within` lists them
     allp = order
     near = [q for q in allp if any(in_site(q, r) or any(h.beneath_py((r[0], i), q) for i in range(r[1], r[2])) for r in regs)]
@@ -879,7 +1195,9 @@ def _sites_args(S_):
 
 def note_crash(rep, name, src, e):
     if not isinstance(e, TransformError) and len(rep.notes) < 8:
-        rep.notes.append(f'{name} raised {type(e).__name__}: {e!r} on program:\n{src}\n' + traceback.format_exc()[-600:])
+        key = f'{name} raised {type(e).__name__}: {str(e)[:160]}'
+        if not any(n.startswith(key[:60]) for n in rep.notes):
+            rep.notes.append(key + f' | program head: {src[:300]!r} | ' + traceback.format_exc()[-300:])
 
 # ---------------------------------------------------------------------------
 # chains
@@ -1019,6 +1337,160 @@ def chain_oracle(rep, R, table, f0, src, evals, nchains, mono_first=False):
 
 # ---------------------------------------------------------------------------
 
+def expect(rep, what, exc, thunk, replay):
+    """thunk must raise exc"""
+    try:
+        r = thunk()
+    except exc:
+        rep.count('e2e:contract:rejected'); return
+    except Exception as e:   # noqa
+        rep.violation(f'{what}: expected {getattr(exc, "__name__", exc)}, got {type(e).__name__}: {e}', replay); return
+    rep.violation(f'{what}: expected {getattr(exc, "__name__", exc)}, but it was accepted', dict(replay, result=str(r)[:200]))
+
+def api_contract(rep, R, table, mod, f, src, evals):
+    """the rest of the aiming vocabulary: what is NOT a name is rejected, by kind"""
+    from fpy2.rewrite.search import find
+    from fpy2.transform import ExprPath
+    h = H()
+    rp = {'program': src}
+    evals[0] += 1
+    S = h.shape(f.ast.body)
+    try:
+        calls = list(st.sites(st.inline, f))
+    except Exception:   # noqa
+        calls = []
+    fors = st.sites(st.unroll_for, f)
+    other = next((getattr(mod, n) for n in dir(mod) if n.startswith('prog') and getattr(mod, n) is not f), None)
+    # an expression cursor handed to a statement-sited pass / listing; a cursor of another program
+    if calls:
+        c = calls[0]
+        expect(rep, 'unroll_for(where=<expression cursor>)', TransformReferenceError, lambda: st.unroll_for(f, where=c), rp)
+        expect(rep, 'sites(unroll_for, within=<expression cursor>)', TransformReferenceError, lambda: st.sites(st.unroll_for, f, within=c), rp)
+        expect(rep, 'Rewrite(statement rule)(where=<expression cursor>)', TransformError, lambda: Rewrite(mod.one_l, mod.one_r1).apply(f, c), rp)
+        if c.stmt().resolve() is not h.node_at(S, h.unreal_sp(c.path.stmt()))[1]:
+            rep.violation('ExprCursor.stmt() does not name the statement the expression belongs to', rp)
+        # `within` an expression: the listed sites at or under it, in the same order
+        keys = [(site_region(x), expr_path_key(x)) for x in calls]
+        for i, x in enumerate(calls[:6]):
+            want = [str(y).split(' at')[0] for y, (r, kk) in zip(calls, keys) if r == keys[i][0] and kk[:len(keys[i][1])] == keys[i][1]]
+            got = [str(y).split(' at')[0] for y in st.sites(st.inline, f, within=x)]
+            rep.count('e2e:contract:within-expr')
+            if got != want:
+                rep.violation(f'sites(inline, within={str(x).split(" at")[0]}) lists {got}; the listed sites at or under it are {want}', rp)
+        if other is not None:
+            co = st.sites(st.inline, other)
+            if co:
+                expect(rep, 'inline(where=<expression cursor of another program>)', TransformReferenceError, lambda: st.inline(f, where=co[0]), rp)
+                expect(rep, 'sites(inline, within=<cursor of another program>)', TransformReferenceError, lambda: st.sites(st.inline, f, within=co[0]), rp)
+        bad = ExprPath(c.path.stmt(), 'msg', None)
+        expect(rep, 'ExprCursor(<a field the statement does not have>)', TransformReferenceError, lambda: ExprCursor(f.ast, bad), rp)
+    if other is not None:
+        so = StmtCursor(other.ast, h.real_sp(((), 0)))
+        expect(rep, 'unroll_while(where=<statement cursor of another program>)', TransformReferenceError, lambda: st.unroll_while(f, where=so), rp)
+        expect(rep, 'sites(unroll_for, within=<statement cursor of another program>)', TransformReferenceError, lambda: st.sites(st.unroll_for, f, within=so), rp)
+        expect(rep, 'find_all(within=<cursor of another program>)', TransformReferenceError, lambda: find_all(mod.one_l, f, within=so), rp)
+    # find / find_all(within)
+    for pat in (mod.one_l, mod.pair_l, mod.e_l, mod.lit_l):
+        allm = find_all(pat, f)
+        try:
+            one = find(pat, f)
+            if len(allm) != 1 or one != allm[0]:
+                rep.violation(f'find({pat.name}) returned {one} although find_all lists {len(allm)} matches', rp)
+        except TransformReferenceError:
+            if len(allm) == 1: rep.violation(f'find({pat.name}) failed although exactly one place matches', rp)
+        rep.count('e2e:contract:find')
+        for q in R.sample([p for p, _ in h.walk(S)], min(3, len(S))):
+            cur = StmtCursor(f.ast, h.real_sp(q))
+            got = [str(m).split(' at')[0] for m in find_all(pat, f, within=cur)]
+            want = []
+            for m in allm:
+                r = site_region(m)
+                if all(h.beneath_py((r[0], i), q) for i in range(r[1], r[2])): want.append(str(m).split(' at')[0])
+            if got != want:
+                rep.violation(f'find_all({pat.name}, within={h.path_tok(q)}) lists {got}; the matches at or beneath it are {want}', rp)
+    # regions: indexing and `one`
+    blks = [(bp, b) for bp, b in h.blocks_of(S) if len(b) >= 2]
+    if blks:
+        bp, b = R.choice(blks)
+        reg = BlockCursor(f.ast, h.real_bp(bp), range(0, 2))
+        if [c2.resolve() for c2 in reg] != reg.resolve() or reg[1].resolve() is not reg.resolve()[1] or len(reg) != 2:
+            rep.violation('a region and its members disagree', rp)
+        expect(rep, 'BlockCursor.one() of a two-statement region', TransformReferenceError, lambda: reg.one(), rp)
+        one = BlockCursor(f.ast, h.real_bp(bp), range(1, 2))
+        if one.one().resolve() is not b[1][1]:
+            rep.violation('BlockCursor.one() does not name the one statement of the region', rp)
+        expect(rep, 'BlockCursor past the end of its block', TransformReferenceError, lambda: BlockCursor(f.ast, h.real_bp(bp), range(0, len(b) + 1)), rp)
+    # types
+    from fpy2.transform import WhileUnroll, ForUnroll, UnfoldSpecial, UnfoldNegZero, RescaleFixed
+    if other is not None:
+        # also where the listing is empty: "an empty listing rejects a `within` naming nothing of the kind as a populated one would"
+        for cls in (ForUnroll, UnfoldSpecial, UnfoldNegZero, RescaleFixed):
+            expect(rep, f'{cls.__name__}.sites(within=<cursor of another program>)', TransformReferenceError, (lambda cls: lambda: cls.sites(f.ast, so))(cls), rp)
+            if calls:
+                expect(rep, f'{cls.__name__}.sites(within=<expression cursor>)', TransformReferenceError, (lambda cls: lambda: cls.sites(f.ast, calls[0]))(cls), rp)
+        expect(rep, 'WhileUnroll.sites(within=<cursor of another program>)', TransformReferenceError, lambda: WhileUnroll.sites(f.ast, so), rp)
+    if calls:
+        expect(rep, 'WhileUnroll.sites(within=<expression cursor>)', TransformReferenceError, lambda: WhileUnroll.sites(f.ast, calls[0]), rp)
+    expect(rep, 'BlockCursor(<not a FuncDef>)', TypeError, lambda: BlockCursor(f, h.real_bp(()), range(0, 1)), rp)
+    expect(rep, 'StmtCursor(<not a FuncDef>)', TypeError, lambda: StmtCursor(f, h.real_sp(((), 0))), rp)
+    expect(rep, 'StmtCursor(<not a path>)', TypeError, lambda: StmtCursor(f.ast, 0), rp)
+    expect(rep, 'BlockCursor(<stepped range>)', TypeError, lambda: BlockCursor(f.ast, h.real_bp(()), range(0, 2, 2)), rp)
+    expect(rep, 'BlockCursor(<not a block path>)', TypeError, lambda: BlockCursor(f.ast, h.real_sp(((), 0)), range(0, 1)), rp)
+    expect(rep, 'ExprCursor(<not an expression path>)', TypeError, lambda: ExprCursor(f.ast, h.real_sp(((), 0))), rp)
+    expect(rep, 'ExprCursor(<not a FuncDef>)', TypeError, lambda: ExprCursor(f, h.real_sp(((), 0))), rp)
+    expect(rep, 'Function.forward(<not a cursor>)', (TypeError, AttributeError), lambda: st.unroll_while(f).forward(0) if st.sites(st.unroll_while, f) else (_ for _ in ()).throw(TypeError()), rp)
+    expect(rep, 'sites(<a pass that takes no where>)', ValueError, lambda: st.sites(st.simplify, f), rp)
+    expect(rep, 'refusals(<a pass that takes no where>)', ValueError, lambda: st.refusals(st.simplify, f), rp)
+    expect(rep, 'sites(<not a Function>)', TypeError, lambda: st.sites(st.inline, f.ast), rp)
+    expect(rep, 'refusals(<not a Function>)', TypeError, lambda: st.refusals(st.inline, f.ast), rp)
+    if st.refusals(st.unroll_while, f) != []:
+        rep.violation('refusals(unroll_while) is not empty', rp)
+    expect(rep, 'Rewrite(statement pattern, expression pattern)', ValueError, lambda: Rewrite(mod.one_l, mod.e_r), rp)
+    expect(rep, 'Rewrite.apply(<not a Function>)', (TypeError, AttributeError), lambda: Rewrite(mod.e_l, mod.e_r).apply(f.ast), rp)
+    expect(rep, 'Rewrite.apply(repeat=0)', TypeError, lambda: Rewrite(mod.e_l, mod.e_r).apply(f, repeat=0), rp)
+    expect(rep, 'find_all(<not a pattern>)', TypeError, lambda: find_all(f, f), rp)
+    expect(rep, 'find_all(<not a Function>)', TypeError, lambda: find_all(mod.e_l, f.ast), rp)
+    for nm, bad in [('unroll_for(times=0)', lambda: st.unroll_for(f, times=0)), ('unroll_while(times=0)', lambda: st.unroll_while(f, times=0)),
+                    ('split(factor=0)', lambda: st.split(f, 0))]:
+        expect(rep, nm, ValueError, bad, rp)
+    for nm, bad in [('unroll_for(<not a Function>)', lambda: st.unroll_for(f.ast)), ('unroll_while(<not a Function>)', lambda: st.unroll_while(f.ast)),
+                    ('unroll_for(times=1.5)', lambda: st.unroll_for(f, times=1.5)), ('unroll_while(times="1")', lambda: st.unroll_while(f, times='1')),
+                    ('inline(<not a Function>)', lambda: st.inline(f.ast)), ('split(<not a Function>)', lambda: st.split(f.ast, 2)),
+                    ('insert_round(<not a Function>)', lambda: st.insert_round(f.ast, fp.FP64)), ('lift_context(<not a Function>)', lambda: st.lift_context(f.ast)),
+                    ('close(<not a Function>)', lambda: st.close(f.ast)), ('monomorphize(<not a Function>)', lambda: st.monomorphize(f.ast)),
+                    ('unfold_special(<not a Function>)', lambda: st.unfold_special(f.ast)), ('unfold_neg_zero(<not a Function>)', lambda: st.unfold_neg_zero(f.ast)),
+                    ('unfold_overflow(<not a Function>)', lambda: st.unfold_overflow(f.ast)), ('float_to_fixed(<not a Function>)', lambda: st.float_to_fixed(f.ast)),
+                    ('rescale_fixed(<not a Function>)', lambda: st.rescale_fixed(f.ast)), ('simplify(<not a Function>)', lambda: st.simplify(f.ast)),
+                    ('elim_round(<not a Function>)', lambda: st.elim_round(f.ast)), ('fuse(<not a Function>)', lambda: st.fuse(f.ast)),
+                    ('elim_iter(<not a Function>)', lambda: st.elim_iter(f.ast))]:
+        expect(rep, nm, TypeError, bad, rp)
+
+def two_stage(rep, R, table, f, src, evals):
+    """a rule whose right-hand side uses a pattern variable 0, 1, 2 or 3 times, then a second pass aimed at each
+    copy separately, by index and by cursor: exactly that copy must change"""
+    dups = [s for s in table if s.family == 'dup']
+    second = [s for s in table if s.family == 'G' and s.kind == 'expr' and s.recog == 'gone']
+    for D in (dups if rep.tier != 'quick' else R.sample(dups, 3)):
+        try:
+            k = len(D.sites(f))
+        except Exception:   # noqa
+            continue
+        if k == 0: continue
+        for w in ([None, R.randrange(k)] if rep.tier != 'quick' else [R.choice([None, None, R.randrange(k)])]):
+            try:
+                f1 = D.apply(f, w); evals[0] += 1
+            except TransformError:
+                rep.count('e2e:two-stage:first-declined'); continue
+            except Exception as e:   # noqa
+                rep.count(f'e2e:two-stage:first-failed:{type(e).__name__}'); note_crash(rep, D.name, src, e); continue
+            nm = f'{D.name}(where={w})'
+            stp = analyse_step(rep, nm, f, f1, {'program': src, 'chain': [nm]})
+            if not stp.ok: continue
+            evals[0] += check_forward(rep, nm, stp, {'program': src, 'chain': [nm]})
+            rep.count('e2e:two-stage:' + D.name)
+            for S2 in second:
+                aim_oracle(rep, R, S2, f1, src + f'# after {nm}\n', evals, d5=False)
+
 def _one_program(rep, R, mod, table, nm, fam, src, nchains, evals):
     f = getattr(mod, nm)
     rep.count('e2e:programs:' + fam)
@@ -1035,9 +1507,12 @@ def _one_program(rep, R, mod, table, nm, fam, src, nchains, evals):
         aimable = [s for s in tab if s.kind in ('stmt', 'expr')]
         core = [s for s in aimable if s.name.startswith(('Rewrite', 'inline', 'insert_round'))]
         rest = [s for s in aimable if s not in core]
-        for S_ in core + (rest if rep.tier != 'quick' else R.sample(rest, 5)):
-            aim_oracle(rep, R, S_, f, src, evals, expr_curs=ec)
-        chain_oracle(rep, R, tab, f, src, evals, nchains)
+        covr = [s for s in table if s.family == 'cov']
+        for S_ in core + (rest if rep.tier != 'quick' else R.sample(rest, 4)) + (covr if rep.tier != 'quick' else R.sample(covr, 6)):
+            aim_oracle(rep, R, S_, f, src, evals, expr_curs=ec, d5=S_.family != 'cov' or rep.tier != 'quick')
+        api_contract(rep, R, table, mod, f, src, evals)
+        chain_oracle(rep, R, tab + [s for s in table if s.family == 'dup'], f, src, evals, nchains)
+        two_stage(rep, R, table, f, src, evals)
     else:
         try:
             g = st.monomorphize(f, fp.FP64, [RealType(fp.FP32)] * 2)
@@ -1088,8 +1563,8 @@ def _worker(args):
 def end_to_end(rep, R, tier, tmp):
     import multiprocessing as mp
     h = H()
-    nG = 20 if tier == 'quick' else 115
-    nM = 8 if tier == 'quick' else 40
+    nG = 10 if tier == 'quick' else 48
+    nM = 4 if tier == 'quick' else 20
     nchains = 4 if tier == 'quick' else 8
     tags = h.tagger(TAG0)
     gen = Gen(R, tags)
